@@ -76,6 +76,7 @@ pub proof fn lemma_merge_with_empty_body(a: Map<String, Vec<String>>, b: Map<Str
 }
 impl CanonicalRequest {
 //@ fn canonical.rs impl CanonicalRequest :: from_request_parts
+//@ hideutf8
 //@ props C08 C01 C09 C10 C11 C12 C13 C15 C17
 //@ ret r
 //@ replace 1 `content_type.content_type == APPLICATION_X_WWW_FORM_URLENCODED` => `string_eq_str(&content_type.content_type, APPLICATION_X_WWW_FORM_URLENCODED)`
@@ -100,7 +101,7 @@ impl CanonicalRequest {
 //@ bodystart
     let ghost parts0 = parts;
     let ghost body0 = body;
-    proof { reveal_strlit(""); assert("".spec_bytes() =~= Seq::<u8>::empty()); reveal_strlit("application/x-www-form-urlencoded"); }
+    proof { reveal_strlit(""); vstd::utf8::is_ascii_chars_encode_utf8(""@); assert("".spec_bytes() =~= Seq::<u8>::empty()); reveal_strlit("application/x-www-form-urlencoded"); }
 //@ before 1 `if options.url_encode_form {`
     proof {
         if content_type is Some { lemma_str_bytes_inj(content_type->Some_0.content_type@, APPLICATION_X_WWW_FORM_URLENCODED@); }
@@ -156,6 +157,7 @@ impl CanonicalRequest {
                             lemma_str_bytes_concat(canonical_path@.push('?'), qs@);
                             assert(str_bytes(pq@) =~= pb + (seq![0x3fu8] + qb));
                         } else {
+                            vstd::utf8::is_ascii_chars_encode_utf8(qs@);
                             assert(qb =~= Seq::<u8>::empty());
                             assert(str_bytes(pq@) =~= pb + Seq::<u8>::empty());
                         }
@@ -239,6 +241,7 @@ pub open spec fn accepted<G>(parts: Parts, body: Bytes, options: SignatureOption
 }
 
 //@ fn signature.rs sigv4_validate_request
+//@ hideutf8
 //@ props C08 C01 C02 C04 C13 C14 C15 C17
 //@ ret r
 //   (this Verus version gives no specification to the error conversion hidden in `?` when the error types differ; the three converting `?`
